@@ -204,3 +204,53 @@ def rollback_scope(ctx, rid, fn, fid):
     else:
         run.error("%s: expected exactly one retrieve_outputs call in cancel_tx, found %d" % (rid, len(ro)))
 
+
+
+def amount_restored(ctx, rid):
+    """repopulate_tx overwrites the counterparty's slate.amount with the wallet's own context.amount on every
+    path to Ok, and the send arm of finalize_tx runs it before complete_tx (C02.R3; also C11: the payment-proof
+    message is built from slate.amount)."""
+    run = ctx.run
+    SEL = c.LW + "internal::selection::"
+    rp = ctx.fn(SEL + "repopulate_tx")
+    if not rp:
+        return
+    asg = [(b, s_) for b, s_ in vf.field_assignments(rp, c.LW + "slate::Slate", "amount")
+           if s_["r"]["k"] == "use" and vf.has_field(vf.producers(rp, s_["r"]["o"]), c.LW + "types::Context", "amount")]
+    e = {(b, x) for b, _s in asg for x in rp.succ(b)}
+    h = bool(e) and cfg.must_pass(rp, e, cfg.return_blocks(rp), cut_nodes=cfg.error_return_blocks(rp))[0]
+    run.instance(rid, {"fn": "repopulate_tx", "obligation": "slate.amount := context.amount on every path to Ok (not only for some incoming amounts)"}, held=h)
+    if not h:
+        run.finding(Finding(rid, rp.id, "repopulate_tx can return Ok without restoring slate.amount from the context", site=rp.loc()))
+
+
+def writes_committed(ctx, rid, only_fns=None, only_effects=None):
+    """No write is silently lost: every write placed on a batch the function itself opened is followed by that
+    batch's commit() Ok on every path to an Ok return (an uncommitted LMDB batch is aborted when dropped)."""
+    from ..callgraph import WOB, EFFECTS, non_production
+
+    run = ctx.run
+    W = [k for k in EFFECTS if k.startswith(WOB) and not k.endswith("::commit") and not k.endswith("::next_tx_log_id")]
+    n = 0
+    for fid, f in sorted(ctx.db.fns.items()):
+        if non_production(fid) or (only_fns and fid not in only_fns):
+            continue
+        effs = [(b, t) for b, t in f.calls() if t.get("f") in W and (not only_effects or t["f"].split("::")[-1] in only_effects)]
+        if not effs:
+            continue
+        ce = set()
+        for b, _t in cfg.find_calls(f, WOB + "commit"):
+            ce |= cfg.call_guard(f, b).ok
+        okr = cfg.return_blocks(f)
+        err = cfg.error_return_blocks(f)
+        for b, t in effs:
+            pr = vf.producers(f, t["a"][0])
+            if any(x[0] == "arg" for x in pr) and not any(x[0] == "call" and x[1].endswith("::batch") for x in pr):
+                continue  # the batch belongs to the caller, who commits it
+            par = cfg.reach(f, starts=[t["t"]], cut_edges=ce, cut_nodes=err)
+            held = not any(r in par for r in okr)
+            n += 1
+            run.instance(rid, {"fn": pp.short(fid), "write": t["f"].split("::")[-1], "site": c.site_of(f, b), "obligation": "followed by commit() Ok before any Ok return"}, held=held)
+            if not held:
+                run.finding(Finding(rid, fid, "%s is written to a batch that can be dropped without commit() before Ok is returned (the write is lost)" % t["f"].split("::")[-1], site=c.site_of(f, b)))
+    return n
